@@ -156,7 +156,10 @@ def harness(ctx, C, p):
         source = p["source"]
     d = mk(C, source)
     rc = api.outcome(d.compile)
-    ctx.check("compile() accepts the construct (got %s)" % ("ok" if rc.ok else type(rc.exc).__name__ + ": " + str(rc.exc)[:80]), rc.ok)
+    if not rc.ok:
+        # the property speaks about constructs that compile() accepts; a refusal must still be a ConstructError
+        ctx.check("compile() refuses only with a ConstructError (got %s)" % type(rc.exc).__name__, isinstance(rc.exc, C.ConstructError))
+        return "not-compilable"
     dc = rc.value
     s1, s2 = api.outcome(d.sizeof), api.outcome(dc.sizeof)
     ctx.check("sizeof agrees", s1.ok == s2.ok and (not s1.ok or s1.value == s2.value))
